@@ -152,7 +152,7 @@ FailedRun(v, c, k, o) ==
         \cup (IF \A i \in 1..Len(ro.rows) : ro.rows[i].qi \in 0..(Len(v.qs) - 1) => NucOK(v, c, Form(c, r)[ro.rows[i].qi + 1], ro.rows[i].muts, r.append) THEN {} ELSE {"C04-nuc"})
         \cup (IF \A i \in 1..Len(ro.rows) : ro.rows[i].qi \in 0..(Len(v.qs) - 1) => AaOK(Form(c, r)[ro.rows[i].qi + 1], ro.rows[i].muts) THEN {} ELSE {"C04-aa"})
         \cup (IF \A i \in 1..Len(ro.rows) : Sorted(c, ro.rows[i].muts) THEN {} ELSE {"C14-sorted"}))
-     \cup (IF IsGff(r.anno) /\ r.cmd \in {"variants", "samvar"}
+     \cup (IF IsGff(r.anno) /\ r.cmd \in {"variants", "samvar", "samvar-annoref"}
            THEN LET g == FindRun(v, LAMBDA x : x.anno = "gb" /\ SameRun(x, r, TRUE, FALSE) /\ ~x.stdin) IN
                 IF g # {} /\ ~GbGffOK(c, o.runs[CHOOSE x \in g : TRUE], ro) THEN {"C14-gb-vs-gff"} ELSE {}
            ELSE {})
